@@ -14,13 +14,17 @@ RULE = ("Generated projects of 1..3 files in a scratch directory: each file defi
         "self-import), imports a random subset of the files with or without `as`, written before or after the "
         "definitions, including cycles (A<->B, A->B->C->A) and self-imports. A main file "
         "exercises uses whose legality is known by construction: qualified `ns::f` and unqualified `f` of public and "
-        "of private functions of directly imported files. Oracle: all legal uses together -> `garden check --json` "
+        "of private functions of directly imported files; half of the files also define a public or private enum whose "
+        "variants (with and without payload) are used the same two ways. Oracle: all legal uses together -> `garden check --json` "
         "reports no error and `garden run` prints every callee's name; each illegal use alone -> `check` reports an "
         "error AND `run` ends with a Garden error without printing the callee's name; every command terminates. "
         "Re-export attempts (asking for a function that the imported file itself only imported) are run and counted "
         "but not asserted (the documentation scopes `public` to a file's own definitions). Non-trivial = >= 2 files, "
         ">= 1 private function and >= 1 import edge on a cycle; distinct = distinct project.")
-ASSUMPTIONS = ["`public` is documented for functions and methods; enums / structs are not generated"]
+ASSUMPTIONS = ["`public` is documented for functions and methods; an enum's variants are values of its file and are "
+               "taken to be as visible as the enum is marked; type NAMES (struct / enum names in hints and struct "
+               "literals) are global in Garden by design - the prelude's own types carry no `public` - so their "
+               "visibility is not asserted and structs are not generated"]
 MANIFEST = dict(
     category="exploration",
     technique="model-based property testing over generated multi-file projects (legality of every use known by "
@@ -40,6 +44,10 @@ def gen(r):
         for j in range(r.int(1, 4)):
             funs.append({"name": f"fn_{i}_{j}", "public": r.bool(0.55), "call": None})
         files.append({"name": f"mod{i}.gdn", "funs": funs, "imports": [], "imports_first": r.bool()})
+        if r.bool(0.5):
+            # an enum whose variants are values of the file: as visible as the enum is
+            files[i]["enum"] = {"name": f"En{i}", "public": r.bool(0.6), "variants": [f"Va{i}", f"Vb{i}"],
+                                "first": r.bool()}
     for i in range(k):
         for t in range(k):
             if r.bool(0.6 if t != i else 0.25):
@@ -107,6 +115,10 @@ def render_module(f, files):
     for im in f["imports"]:
         t = files[im["target"]]["name"]
         imps.append(f'import "./{t}"' + (f' as {im["alias"]}' if im["alias"] else ""))
+    en = f.get("enum")
+    if en:
+        text = ("public " if en["public"] else "") + f"enum {en['name']} {{ {en['variants'][0]}, {en['variants'][1]}(Int), }}"
+        defs = [text] + defs if en["first"] else defs + [text]
     out = imps + defs if f.get("imports_first") else defs + imps
     return "\n".join(out) + "\n"
 
@@ -155,9 +167,20 @@ def check(case, ctx) -> Res:
         for g in f["funs"]:
             expr = f'{im["alias"]}::{g["name"]}()' if im["alias"] else f'{g["name"]}()'
             (legal if g["public"] else illegal).append((expr, g, f))
+        en = f.get("enum")
+        if en:
+            pre = f'{im["alias"]}::' if im["alias"] else ""
+            for expr, shown in ((f"string_repr({pre}{en['variants'][0]})", en["variants"][0]),
+                                (f"string_repr({pre}{en['variants'][1]}(3))", en["variants"][1] + "(3)")):
+                g = {"name": shown, "public": en["public"], "call": None, "variant": True}
+                (legal if en["public"] else illegal).append((expr, g, f))
     cyc = any(im["target"] != i and any(b["target"] == i for b in files[im["target"]]["imports"])
               for i, f in enumerate(files) for im in f["imports"]) or any(im["target"] == i for i, f in enumerate(files) for im in f["imports"])
     cls = [f"files:{len(files)}", "cycle" if cyc else "acyclic"]
+    if any(g.get("variant") for _, g, _ in legal):
+        cls.append("public-enum-variants")
+    if any(g.get("variant") for _, g, _ in illegal):
+        cls.append("private-enum-variants")
     # all legal uses together
     main_src = header + "".join(f"println({e})\n" for e, _, _ in legal)
     d = write_project(ctx, case, main_src)
@@ -172,10 +195,14 @@ def check(case, ctx) -> Res:
             return fail(f"`garden {name}` crashed: " + x.crash_sig(), f"{x.err[-300:]}\n{desc}--- main.gdn\n{main_src}", classes=cls)
     errs = errors_of(c)
     if errs:
+        if any(g.get("variant") and g["name"].split("(")[0] in " ".join(errs) for _, g, _ in legal):
+            return fail("check reports an error for a variant of a public enum", f"{errs[:2]}\n{desc}--- main.gdn\n{main_src}", classes=cls)
         return fail("check reports an error for a legal use of a public function", f"{errs[:2]}\n{desc}--- main.gdn\n{main_src}", classes=cls)
     exp = "".join(expected_output(g, f, files) + "\n" for _, g, f in legal)
     if r.out != exp or "Exception" in r.err:
         sig = "a legal use of a public function fails or prints something else at run time"
+        if any(g.get("variant") and g["name"].split("(")[0] in r.err for _, g, _ in legal):
+            sig = "a variant of a public enum is not reachable at run time"
         import re as _re
         m = _re.search(r"No such variable `fn_(\d+)_\d+`[^\n]*\n-\| mod(\d+)\.gdn", r.err)
         if m:
@@ -202,10 +229,11 @@ def check(case, ctx) -> Res:
         if c2.crashed or r2.crashed:
             return fail("command crashed: " + (c2.crash_sig() if c2.crashed else r2.crash_sig()), f"{desc}--- main.gdn\n{src}", classes=cls)
         how = "qualified" if "::" in e else "unqualified"
+        what = "variant of a private enum" if g.get("variant") else "private function"
         if not errors_of(c2):
-            return fail(f"check accepts a {how} use of a private function", f"`{e}`\n{desc}--- main.gdn\n{src}", classes=cls)
+            return fail(f"check accepts a {how} use of a {what}", f"`{e}`\n{desc}--- main.gdn\n{src}", classes=cls)
         if g["name"] in r2.out or "Exception" not in r2.err:
-            return fail(f"a {how} use of a private function works at run time",
+            return fail(f"a {how} use of a {what} works at run time",
                         f"`{e}` printed {r2.out!r}\n{r2.err[:200]}\n{desc}--- main.gdn\n{src}", classes=cls)
     # re-export attempts: counted, not asserted
     reexp = 0
